@@ -209,6 +209,16 @@ CHECKS = {
              'PARTIAL (named): the abstract carriers are not instantiated with the list model inside Lean; the operation-wise commutation hypotheses are proved for the list model (T10.2/T10.3) and validated on the real Grid each run (2.6e-15); node / weight symmetry and the trig tables are validated on the arrays the code computed.',
         note=TB + 'Fast-layout d_dlon commutation is for frequency_offset = 0 (unsharded); sharded execution is C07. equiangular_with_poles excluded for dynamics (sec^2 infinite at the poles by construction).',
         design='6/C10'),
+    'C05': dict(
+        technique='Lean 4 theorems about the abstract spectral models Dino.Dynamics (four primitive-equation classes) and Dino.DynamicsSW (layered shallow water + the state factories), laws of the horizontal operators as named hypotheses validated on real grids every run; '
+                  'differential correspondence of every shallow-water routine, both factories and the rest-state construction; sentinel probes on the real code incl. an independent exact polynomial-algebra oracle of the continuous sigma-coordinate equations (labelled test)',
+        text='Machine-checked proof: (T5.1) for every level set, any orography and constant T_ref, the resting state zeta = delta = T\' = 0, ln ps = -g h/(R_eff T_ref) + const has zero total tendency in the dry, with-time, moist (uniform humidity, R_eff = R(1 + (R_v/R - 1) q0)) and cloud classes; '
+             '(T5.2) the code\'s interior sigma-dot padded with the boundary zeros equals sigma F(1) - F(sigma) at all n+1 boundaries and vanishes at sigma = 0 and 1; the total ln ps tendency is minus the sigma = 1 value of the same cumulative integral; thicknesses sum to one; '
+             '(T5.3) the state built by shallow_water_states.one_layer / multi_layer (any layer count, jnp.linalg.solve as a contract) has total tendency equal to an explicit residual that vanishes iff radius = 1 and 2 Omega = 1 (steady in the factory\'s own units; negative witnesses for other radius / Omega = the recorded known finding sw-factory-units); '
+             'any non-divergent zonal flow of the dry classes has every tendency zero except divergence, which equals the gradient-wind balance residual (so solid-body rotation with the balanced surface pressure is steady). '
+             'PARTIAL (named): agreement with the continuous equations on general low-degree states and the analytic gradient-wind balance U^2 + 2 Omega a U = c R T are analytic-oracle TESTS on the real code (exact polynomial algebra in (x,y,z) with the documented vertical differences, 1e-9), not theorems: the abstract operators carry no sphere calculus; the zonal-flow theorem is for the dry classes; T5.4 (refinement to an advective-form spec) not done.',
+        note=TB + 'Known finding: shallow_water_states factories hard-code radius 1 and 2 Omega = 1. Observation (not a finding, see DESIGN 11.3): isothermal_rest_atmosphere(surface_height=...) uses a lapse-rate barometric formula, so its state is not the hydrostatically balanced one the property speaks of.',
+        design='6/C05'),
 }
 
 NOT_YET = {
